@@ -735,6 +735,9 @@ class SsbGraphMinimizer:
                     in_edges = v.in_edges()
                     out_edges = v.out_edges()
                     if len(in_edges) == 0:
+                        if v["op"].referenced_from_other_routine:
+                            # Jumps from other routines are not part of this graph.
+                            continue
                         vs_to_delete.add(v)
                     elif len(in_edges) == 1:
                         assert len(out_edges) == 1
